@@ -273,6 +273,7 @@ def facts(r):
         elif k == "left":
             f["left"] = (idx, e[3])
             f["same"] = e[4]
+            f["reach"] = e[6] if len(e) > 6 else None
     return f
 
 
@@ -310,7 +311,12 @@ def observed(case: str, out: str):
         body = 1 if f["enter"] is not None else 0
         caller = 0 if f["left"][1] == "ok" else 1
         cancelled_exit = f["left"][1] == "Cancelled" and r["cancel_idx"] is not None and r["cancel_idx"] < f["left"][0]
-        res.append((f"enters={enters} exits={exits} args={arg} body={body}", caller, cancelled_exit))
+        reach = None
+        if f.get("reach") is not None and f["left"][1] not in ("ok", "Cancelled"):
+            tags = set(f["reach"].split("+"))
+            got = [str(i) for i, d in enumerate(r["order"]) if f"dex{d}" in tags]
+            reach = ",".join(got) or "-"
+        res.append((f"enters={enters} exits={exits} args={arg} body={body}", caller, cancelled_exit, reach))
     return res
 
 
@@ -319,10 +325,13 @@ def agree(case: str, m: str, out: str) -> bool:
     preds = [p for p in m.split(";") if p] if m else []
     if len(preds) != len(obs):
         return False
-    for p, (o, caller, cancelled_exit) in zip(preds, obs):
+    for p, (o, caller, cancelled_exit, reach) in zip(preds, obs):
+        p, _, want_reach = p.rpartition(" reach=")
         head, _, c = p.rpartition(" caller=")
         if head != o:
             return False
+        if reach is not None and reach != want_reach:
+            return False  # which cleanup errors reach the caller (raised / in the group / on the cause-context chain)
         if c == "1" and caller != 1:
             return False
         if c == "0" and caller == 1 and not cancelled_exit:
@@ -424,6 +433,15 @@ def monitor(case: str, out: str) -> list[str]:
             fails.add("disposables.cleanup-error-vanished")
             if any(v != "ok" for v in f["dened"].values()):
                 fails.add("disposables.enter-error-vanished")
+        if f.get("reach") is not None and f["left"][1] != "Cancelled":
+            # every ordinary error raised by the cleanup of a disposable of this block (after the body, or during the
+            # rollback of a failed enter) reaches the caller: as the exception raised, inside a raised
+            # group, or on its cause / context chain.  (A cancellation delivered during the exit is C02/C07's subject.)
+            tags = set(f["reach"].split("+"))
+            for d in r["order"]:
+                if f["dexed"].get(d) == "Boom" and f"dex{d}" not in tags:
+                    fails.add("disposables.cleanup-error-vanished" if f["enter"] is not None
+                              else "disposables.rollback-cleanup-error-vanished")
     return sorted(fails)
 
 
